@@ -49,11 +49,11 @@ def run(ctx, replay=None):
                                   enum_limit=5000),
                              PREFIX)
     # the shipped compositions containing the stochastic components, full support vs operational model
-    for cname in ['obstacles', 'teleport']:
+    for cname in ['obstacles', 'teleport', 'all']:
         sc.run_step_part(ctx, f'local3x3k2_{cname}', sc.local_jobs(3, 3, 2, alphabet=ALPHA_ST, helds=steps.HELD[:1]),
                          dict(comps=steps.COMPOSITIONS[cname], space=steps.family_space(3, 3), via='direct', actions=acts_few,
-                              want=['C11', 'C08', 'C09', 'DRIFT']),
-                         PREFIX + ['DRIFT'])
+                              want=['C11', 'DRIFT']),
+                         PREFIX, drift=True)
     # larger random layouts, seeded outcomes (membership only)
     rng = random.Random(ctx.seed)
     n = 300 if ctx.quick else 5000
